@@ -82,7 +82,7 @@ class G:
         r = self.rng.random()
         if r < 0.6:
             return ["n", self.rng.choice(["2", "3", "2", "4"])]
-        if r < 0.75:
+        if r < 0.86:
             return self.var()
         return sub(depth - 1)
 
@@ -201,7 +201,7 @@ def gen_case(rng, stream, printer):
         pool += rng.sample(UNDER, rng.randint(1, 2))
     if rng.random() < 0.5:
         pool += rng.sample(PYBUILTIN, rng.randint(1, 2))
-    bl = [b for b in builtin_like() if not b.startswith("__")]
+    bl = builtin_pool()
     if rng.random() < 0.6 and bl:
         pool += rng.sample(bl, min(len(bl), rng.randint(1, 2)))
     # the theorem's side condition in the main streams: clean names, no name is another plus underscores
@@ -251,6 +251,8 @@ def gen_case(rng, stream, printer):
             case["decls"][-1]["val"] = ["n", "1"]
     if stream == "other-prefix":
         case["decls"].append({"n": "dd" + str(rng.randint(0, 9)), "pre": "discrete"})
+    cls_of = {x["cls"]: x for x in case["subs"]}
+    dotted = ["%s.%s" % (i["n"], d["n"]) for i in case["insts"] for d in cls_of[i["cls"]]["decls"]]
     names = [d["n"] for d in case["decls"]] + dotted
     nonconst = [d["n"] for d in case["decls"] if d["pre"] in ("", "output")] + dotted
     nstates = rng.choice([0, 1, 1, 2]) if nonconst else 0
@@ -319,13 +321,24 @@ def _add_collision(rng, case):
         case["subs"].append({"cls": "SD", "decls": [{"n": "_b", "pre": ""}]})
         case["insts"] = [x for x in case["insts"] if x["n"] not in ("a", "a_")] + [{"n": "a_", "cls": "SC"}, {"n": "a", "cls": "SD"}]
     else:
-        bl = [b for b in builtin_like() if not b.startswith("__")] or ["psi"]
+        bl = builtin_pool() or ["psi"]
         b = rng.choice(bl)
         case["decls"] = [d for d in case["decls"] if d["n"].rstrip("_") != b]
         case["decls"] += [{"n": b, "pre": ""}, {"n": b + "_", "pre": ""}]
 
 
 _BL = None
+MODELICA_KW = set("""algorithm and annotation block break class connect connector constant constrainedby der
+discrete each else elseif elsewhen encapsulated end enumeration equation expandable extends external false final
+flow for function if import impure in initial inner input loop model not operator or outer output package parameter
+partial protected public pure record redeclare replaceable return stream then true type when while within time""".split())
+
+
+def builtin_pool():
+    """Members of the real BUILTINS list usable as Modelica identifiers in the main streams."""
+    import keyword
+    return [b for b in builtin_like() if b.isidentifier() and not b.startswith("__") and not keyword.iskeyword(b)
+            and b not in MODELICA_KW and b not in ("self", "super", "sympy", "mech", "OdeModel", "sin", "cos", "tan")]
 
 
 def builtin_like():
@@ -348,7 +361,7 @@ def points(case, names):
             elif k == 1:
                 v = Fraction(rng.choice([-5, -4, -3, -2, 2, 3, 4, 5]))
             else:
-                v = Fraction(rng.choice([-7, -5, -3, -1, 1, 3, 5, 7, 2, 4, -2, -4, 6]), rng.choice([1, 1, 2]))
+                v = Fraction(rng.choice([-7, -5, -3, -1, 1, 3, 5, 7, 2, 4, -2, -4, 6]), rng.choice([1, 1, 1, 2]))
             env[n] = v
             denv[n] = Fraction(rng.choice([-9, -6, -4, 4, 6, 9, 11]), rng.choice([1, 2]))
         pts.append((env, denv))
@@ -379,7 +392,7 @@ def build_expr(e, A):
 def _front(case, via_text):
     """Modelica front end.  The declarations always go through pymoca's parser; the equations go through
     it on the `via_text` path, and are built as AST nodes directly otherwise (ANTLR needs ~0.4 s for the
-    equations of one model; the two paths are compared on every 8th case)."""
+    equations of one model; the two paths are compared on every 16th case)."""
     from pymoca import ast as A
     from pymoca import parser
     if via_text:
@@ -428,7 +441,7 @@ def run_real(case, ctx=None):
     """parse -> flatten -> generate.  Returns dict with flat symbols/equations (terms) and the
     generated text, or an exception class name under "error" with the stage."""
     out = _pipeline(case, False)
-    if case["pts"] % 8 == 0 or case.get("via_text"):
+    if case["pts"] % 16 == 0 or case.get("via_text"):
         full = _pipeline(case, True)
         if ctx is not None:
             ctx.count("front-end-cross-checked")
@@ -508,7 +521,8 @@ def check_case(ctx, case, drv, printer):
     try:
         world, obj = L.run_generated(src, case["name"])
     except Exception as e:      # noqa: BLE001
-        viol("the generated module fails while building its equations", {"stage": "exec", "exc": type(e).__name__},
+        viol("the generated module fails while building its equations",
+             {"stage": "exec", "exc": type(e).__name__, "msg": str(e)[:200]},
              "__init__ builds the lists", "%s: %s" % (type(e).__name__, str(e)[:200]))
         model_tie(ctx, case, drv, printer, real, None, np_flags)
         return
@@ -609,7 +623,7 @@ def model_tie(ctx, case, drv, printer, real, obj, np_flags):
     syms, feqs, src = real["syms"], real["eqs"], real["src"]
     names = [s["name"] for s in syms]
     pts = points(case, names)
-    req = {"op": "model", "B": builtin_like(), "variant": "cur" if printer == "cur" else "fix",
+    req = {"op": "model", "B": builtin_like(), "variant": "cur" if printer == "cur" else "fix", "other_as_var": _OTHER_AS_VAR[0],
            "syms": syms, "eqs": feqs,
            "points": [{"env": {n: frs(v) for n, v in env.items()}, "denv": {n: frs(v) for n, v in denv.items()}}
                       for env, denv in pts],
@@ -754,7 +768,25 @@ PROBE = {"stream": "probe", "name": "M", "subs": [], "insts": [],
          "eqs": [[["v", "y"], ["b", "*", ["b", "+", ["v", "a"], ["v", "b"]], ["v", "c"]]]], "pts": 1}
 
 
+PROBE2 = {"stream": "probe", "name": "M", "subs": [], "insts": [],
+          "decls": [{"n": "dq", "pre": "discrete"}, {"n": "y", "pre": ""}],
+          "eqs": [[["v", "y"], ["n", "1"]]], "pts": 1}
+_OTHER_AS_VAR = [False]
+
+
 def detect_printer(ctx):
+    """Which of the two modelled variants of the real code is in the tree: operands pasted as they
+    are ("cur", finding C24-F1 open) or parenthesised (fix C24-1); and whether a symbol with only
+    a `discrete` prefix is listed as a variable (fix C24-4).  Anything else is treated as the fixed
+    variant, so that it shows up as a disagreement with the model."""
+    real2 = run_real(PROBE2)
+    _OTHER_AS_VAR[0] = False
+    if "src" in real2:
+        try:
+            assigns, _ = L.init_assignments(real2["src"], "M")
+            _OTHER_AS_VAR[0] = any("dq" in a["ids"] for a in assigns)
+        except SyntaxError:
+            pass
     real = run_real(PROBE)
     if "src" not in real:
         return "unknown"
@@ -785,14 +817,15 @@ def run(ctx):
     quick = ctx.tier == "quick"
     printer = detect_printer(ctx)
     ctx.extra["printer_variant_detected"] = printer
+    ctx.extra["other_prefix_listed_as_variable"] = _OTHER_AS_VAR[0]
     from harness import corpus
     for c in corpus.load("C24"):
         c = dict(c)
         c.pop("_file", None)
         ctx.count("corpus")
         dispatch(ctx, c.get("case", c), drv, printer)
-    n_models = 260 if quick else 5000
-    n_gram = 300 if quick else 6000
+    n_models = 170 if quick else 5000
+    n_gram = 220 if quick else 6000
     streams = ["main"] * 11 + ["nested"] * 4 + ["collide"] * 2 + ["value", "reserved", "other-prefix"]
     budget = ctx.budget_s
     for i in range(n_gram):
